@@ -1204,6 +1204,13 @@ MUTANTS = [
 
         // NOTE: if the callee is an input""",
          expect="C03.i/check_callee/cleaned-requires-equal-fingerprint"),
+    dict(id="C13.e-range-hash-drops-start", prop="C13", file="crates/stable_hash/src/lib.rs",
+         old="        self.start.stable_hash(state);\n        self.end.stable_hash(state);", new="        self.end.stable_hash(state);", nth=0,
+         expect="C13.e/hand-written/every-field-hashed"),
+    dict(id="C01.k-dirty-edges-cleaned-on-fresh-not-recompute", prop="C01", file=CG + "slow_path.rs",
+         old="                execute_query_for == ExecuteQueryFor::RecomputeQuery,\n                continuing_tx,",
+         new="                execute_query_for != ExecuteQueryFor::RecomputeQuery,\n                continuing_tx,",
+         expect="C01.k/execute_query/dirty-edges-cleaned-exactly-on-recompute"),
     # ------------------------------------------------------------------ C09.f (D5)
     dict(id="C09.f-D5-fold-heap-in-arbitrary-order", prop="C09", file=ST + "key_of_set_map/cache.rs",
          old="""        let mut ordered = log.iter().collect::<Vec<_>>();
